@@ -716,6 +716,42 @@ func TestSingleEditsExhaustive(t *testing.T) {
 					vh.Sample("single-edit", c08Case{Cfg: baseCfg(plain), Key: key, Script: s, Edit: ed.Label})
 				}
 			}
+			// a reply that makes Login give up (wrong acknowledgement status, a refusal message)
+			// AND then goes silent before its end: Login has to come back by its context's
+			// deadline, whatever it still wanted to read
+			all := editsFor(base, plain)
+			for _, st := range all {
+				if !strings.HasPrefix(st.Label, "stall:") {
+					continue
+				}
+				r := st.Label[len("stall:"):]
+				for _, ed := range all {
+					if !(strings.HasPrefix(ed.Label, "ackstatus:"+r) || (strings.HasPrefix(ed.Label, "insert:"+r) && strings.HasSuffix(ed.Label, "=eed"))) {
+						continue
+					}
+					n++
+					if !vh.Mine(n) {
+						continue
+					}
+					s := base
+					s.R1, s.R2 = clone(base.R1), clone(base.R2)
+					func() {
+						defer func() { recover() }()
+						ed.Apply(&s)
+						st.Apply(&s)
+					}()
+					if !encodable(s) {
+						continue
+					}
+					c := c08Case{Cfg: baseCfg(plain), Key: key, Script: s, Edit: "multi#" + ed.Label + "+" + st.Label}
+					if n%2 == 0 {
+						c.Cfg.QueueSize = 2
+					}
+					if !e.Do(c) {
+						return
+					}
+				}
+			}
 		}
 	}
 	e.Done("every single-edit mutation of the four valid scripts (plain/encrypted, with/without interleaved ENVCHANGE and info EED), unfragmented and fragmented")
